@@ -167,4 +167,10 @@ theorem concatGo_lengths (ds : List Compact) (np ns : Nat) :
     obtain ⟨h1, h2, h3⟩ := ih (np + d.P.length) (ns + d.S.length)
     simp [concatGo, shift, h1, h2, h3]
 
+theorem concatMixedGo_false (ds : List Compact) (np ns : Nat) :
+    concatMixedGo np ns (ds.map (·, false)) = concatGo np ns ds := by
+  induction ds generalizing np ns with
+  | nil => rfl
+  | cons d ds ih => simp [concatMixedGo, concatGo, ih]
+
 end Compact
